@@ -8,18 +8,22 @@ from core import Fn, Target
 TU = 'drivers/inst_storage.cpp'
 FLT = 'nano::tensor_'
 H = 'specs/C16/storage.h'
-R = 1
 VS, CS, MS = 'struct nv_vstore', 'struct nv_cstore', 'struct nv_mstore'
-TYPES = [
-    (r'::Scalar$', 'double'), (r'std::array<long, \d+>::value_type$', 'int64_t'),
-    (r'::tdims$|tensor_dims_t<1|std::array<long, 1', 'struct nv_dims'),
-    (r'tensor_vector_storage_t<double, 1|tensor_t<nano::tensor_vector_storage_t, double, 1|tensor_mem_t<double, 1', VS),
-    (r'tensor_carray_storage_t<double, 1|tensor_t<nano::tensor_carray_storage_t, double, 1|tensor_cmap_t<double, 1', CS),
-    (r'tensor_marray_storage_t<double, 1|tensor_t<nano::tensor_marray_storage_t, double, 1|tensor_map_t<double, 1', MS),
-    (r'tensor_base_t<double, 1', 'struct nv_base'),
-    (r'Eigen::Map<', 'struct nv_emap'),
-    (r'eigen_vector_t<double>|Eigen::Matrix<double, -1, 1', 'struct nv_evec'),
-]
+
+
+def types_for(R):
+    return [
+        (r'::Scalar$', 'double'), (r'std::array<long, \d+>::value_type$', 'int64_t'),
+        (rf'::tdims$|tensor_dims_t<{R}|std::array<long, {R}', 'struct nv_dims'),
+        (rf'tensor_vector_storage_t<double, {R}|tensor_t<nano::tensor_vector_storage_t, double, {R}|tensor_mem_t<double, {R}', VS),
+        (rf'tensor_carray_storage_t<double, {R}|tensor_t<nano::tensor_carray_storage_t, double, {R}|tensor_cmap_t<double, {R}', CS),
+        (rf'tensor_marray_storage_t<double, {R}|tensor_t<nano::tensor_marray_storage_t, double, {R}|tensor_map_t<double, {R}', MS),
+        (rf'tensor_base_t<double, {R}', 'struct nv_base'),
+        (r'Eigen::Map<', 'struct nv_emap'),
+        (r'eigen_vector_t<double>|Eigen::Matrix<double, -1, 1', 'struct nv_evec'),
+    ]
+
+
 B = '(struct nv_base*)'
 CALLS = [
     (r'^map_vector\|', 'nv_map_vector({0}, {1})'),
@@ -27,6 +31,7 @@ CALLS = [
     (r'^move\|', '{0}'), (r'^forward\|', '{0}'),
     (r'^size\|.*(tensor_dims_t|std::array)', 'nv_size({&0})'),
     (r'^operator=\|.*std::array', '({0} = {1})'),
+    (r'^operator\[\]\|.*std::array', '{0}.d[{1}]'),
     (r'^ctor\|(nano::)?tensor_base_t[^|]*\|void \((const )?(nano::)?tensor_base_t<[^>]*> &&?\)', 'base_copy_ctor(' + B + 'self, ' + B + '{&0})'),
     (r'^ctor\|(nano::)?tensor_base_t[^|]*\|void \(\)', 'base_default_ctor(' + B + 'self)'),
     (r'^ctor\|(nano::)?tensor_base_t', 'base_ctor(' + B + 'self, {0})'),
@@ -37,7 +42,7 @@ CALLS = [
     (r'^ctor\|(nano::)?tensor_carray_storage_t[^|]*\|void \(const tensor_marray_storage_t', 'cs_from_m(self, {&0})'),
     (r'^ctor\|(nano::)?tensor_marray_storage_t[^|]*\|void \(tensor_vector_storage_t', 'ms_from_v(self, {&0})'),
     (r'^ctor\|.*(std::array|tensor_dims_t|tdims)', '{0}'),
-    (r'^make_dims\|', 'nv_make_dims({0})'),
+    (r'^make_dims\|', 'nv_make_dims({0})'),      # rank R: R arguments (RankSpec)
     (r'^operator!=\|.*(tensor_dims_t|std::array)', '(!nv_dims_eq({&0}, {&1}))'), (r'^operator==\|.*(tensor_dims_t|std::array)', 'nv_dims_eq({&0}, {&1})'),
     # Eigen vector constructions (key: ctor|constructed type|constructor type)
     (r'^ctor\|(Eigen::Matrix<double, -1, 1|eigen_vector_t)[^|]*\|void \(const (Eigen::)?(EigenBase|DenseBase|MatrixBase|Map)', 'nv_evec_from_map({0})'),
@@ -57,6 +62,8 @@ MEMBERS = [
     (r'^operator=\|std::array', '({*self} = {0})'),
     (r'^_resize\|', 'base__resize(' + B + '{self}, {&0})'),
     (r'^dims\|', '(*base_dims(' + B + '{self}))'),
+    # size<k>() == dims[k] (proved on the SMT side: tmodel.m_size); member-call keys end in the explicit template arguments
+    (r'^size\|.*\|<0>$', 'nv_extent(' + B + '{self}, 0)'), (r'^size\|.*\|<1>$', 'nv_extent(' + B + '{self}, 1)'), (r'^size\|.*\|<2>$', 'nv_extent(' + B + '{self}, 2)'),
     (r'^size\|.*(tensor_base_t|storage_t|tensor_t)', 'base_size(' + B + '{self})'),
     (r'^resize\|.*(Eigen|PlainObjectBase)', 'nv_evec_resize({self}, {0})'),
     (r'^resize\|.*tensor_vector_storage_t', 'vs_resize_dims({self}, {&0})'),      # resize(sizes...) forwarding to resize(dims)
@@ -110,19 +117,8 @@ def msel(rx):
     return lambda d: re.search(rx, d.get('mangledName', '')) is not None
 
 
-def fn(cname, name, rx, self_struct, kinds=('CXXMethodDecl', 'CXXConstructorDecl'), **kw):
-    return Fn(cname, TU, name, flt=FLT, select=msel(rx), kinds=kinds, self_struct=self_struct, types=TYPES, calls=kw.pop('calls', CALLS),
-              members=kw.pop('members', MEMBERS), hooks=[overload_hook], uf_float=False, dtors=[(r'eigen_vector_t<double>|Eigen::Matrix<double, -1, 1', 'nv_evec_dtor')], **kw)
-
-
-def base_fns():
-    bs = 'struct nv_base'
-    return [fn('base_dims', 'dims', r'base_tIdLm1ELb1EE4dimsEv', bs), fn('base_size', 'size', r'base_tIdLm1ELb1EE4sizeEv', bs),
-            fn('base__resize', '_resize', r'base_tIdLm1ELb1EE7_resize', bs)]
-
-
 S1 = r'_storage_tIdLm1E'
-FUNCS = {
+FUNCS1 = {
     # name: (C++ name, mangled-name regex, self struct)
     'base_dims': ('dims', r'base_tIdLm1ELb1EE4dimsEv', 'struct nv_base'),
     'base_size': ('size', r'base_tIdLm1ELb1EE4sizeEv', 'struct nv_base'),
@@ -184,13 +180,13 @@ FUNCS = {
 }
 
 
-def F(cname):
-    name, rx, ss = FUNCS[cname]
-    return fn(cname, name, rx, ss, kinds=('CXXMethodDecl', 'CXXConstructorDecl', 'CXXDestructorDecl'))
+# tensor_t: the DEFAULTED move assignment of a mapping tensor (what `t.tensor(i) = t.tensor(j)` in detail::copy resolves to)
+FUNCS1['t_map_move_assign'] = ('operator=', r'tensor_tINS_23tensor_marray_storage_tEdLm1EEaSEOS2_', MS)
 
 
 CANARY = '  __CPROVER_assert(0, "nv_canary: end of harness reachable");\n  return 0;\n}\n'
-PRE = ('int main(void)\n{\n  int64_t ns, no;\n  __CPROVER_assume(0 <= ns && ns <= NV_MAXN && 0 <= no && no <= NV_MAXN);\n')
+# ds / dsrc: the shapes of the destination and of the source (any valid shapes within the bound); ns / no: their sizes (rank >= 2: NAMED products)
+PRE = ('int main(void)\n{\n  struct nv_dims ds, dsrc;\n  int64_t ns, no;\n  __CPROVER_assume(NV_DOK(ds) && NV_DOK(dsrc));\n  ns = NV_DPROD(ds);\n  no = NV_DPROD(dsrc);\n')
 
 
 def harness_assign_view(fname, src_struct, dst_struct=VS, what='owning = view'):
@@ -199,14 +195,14 @@ def harness_assign_view(fname, src_struct, dst_struct=VS, what='owning = view'):
     return (PRE +
             f'  {dst_struct}* self = malloc(sizeof(*self));\n'
             f'  {src_struct}* other = malloc(sizeof(*other));\n  __CPROVER_assume(self != 0 && other != 0);\n'
-            '  self->base.m_dims.d[0] = ns; self->m_data.n = ns; self->m_data.p = nv_alloc(ns);\n'
-            '  other->base.m_dims.d[0] = no;\n'
+            '  self->base.m_dims = ds; self->m_data.n = ns; self->m_data.p = nv_alloc(ns);\n'
+            '  other->base.m_dims = dsrc;\n'
             '  if (nv_alias) { __CPROVER_assume(ns > 0 && 0 <= nv_off && nv_off <= ns && no <= ns - nv_off); other->m_data = self->m_data.p + nv_off; }\n'
             '  else other->m_data = nv_block(no);\n'
             '  if (0 <= nv_g && nv_g < no) nv_old_g = other->m_data[nv_g];\n'
             f'  nv_thrown = 0;\n  {dst_struct}* ret = {fname}(self, other);\n'
             f'  __CPROVER_assert(ret == self, "{what}: returns *this");\n'
-            f'  NV_POST_OWNING(self, no, "{what}");\n' + CANARY)
+            f'  NV_POST_OWNING(self, dsrc, no, "{what}");\n' + CANARY)
 
 
 def harness_ms_copy(fname, src_struct):
@@ -217,8 +213,8 @@ def harness_ms_copy(fname, src_struct):
     return (PRE + '  __CPROVER_assume(ns == no);\n'
             '  struct nv_mstore* self = malloc(sizeof(*self));\n'
             f'  {src_struct}* other = malloc(sizeof(*other));\n  __CPROVER_assume(self != 0 && other != 0);\n'
-            '  self->base.m_dims.d[0] = ns; self->m_data = nv_block(ns);\n'
-            '  other->base.m_dims.d[0] = no;\n' + setup +
+            '  self->base.m_dims = ds; self->m_data = nv_block(ns);\n'
+            '  other->base.m_dims = dsrc;\n' + setup +
             f'  if (0 <= nv_g && nv_g < no) nv_old_g = {srcdata}[nv_g];\n'
             f'  nv_thrown = 0;\n  {fname}(self, other);\n' + CANARY)
 
@@ -240,52 +236,106 @@ HARNESS.update({'t_map_assign_mem': lambda: harness_ms_copy('t_map_assign_mem', 
 
 
 CAD = ['--sat-solver', 'cadical']      # the canary counter-model dominates these runs: 5-8x faster than minisat
-_text = {}
+HARNESS['t_map_move_assign'] = lambda: harness_ms_copy('t_map_move_assign', MS)
+CALLEE['t_map_move_assign'] = 'ms_move_assign'
+# rank >= 2, quick tier: the operations in which size() -- now a NAMED product of the extents -- decides how much is allocated / copied
+QUICK_HIGHER = ['vs_ctor_sizes', 'vs_ctor_dims', 'vs_from_c', 'vs_assign_c', 'vs_assign_m', 'vs_copy_assign', 'vs_move_assign', 'vs_resize_sizes', 'vs_resize_dims',
+                'cs_from_v', 'ms_from_v', 'ms_copy_m', 'ms_assign_v', 't_mem_assign_map', 't_map_move_assign']
 
 
-def callees(c):
-    """the extracted functions that `c` calls, transitively (read off the emitted C: only these go into the target)"""
-    todo, out = [c], []
-    while todo:
-        x = todo.pop()
-        if x not in _text:
-            try:
-                _text[x] = F(x).emit()
-            except astload.ExtractionError:
-                _text[x] = ''
-        for y in FUNCS:
-            if y != c and y not in out and re.search(r'\b' + y + r'\(', _text[x].split('\n', 2)[-1]):
-                out.append(y)
-                todo.append(y)
-    return out
+class RankSpec:
+    """the tables of this module instantiated for one rank (type regexes, mangled-name regexes, make_dims arity); `F` / `callees`
+    are evaluated lazily inside the target workers for ranks >= 2 (no clang work in build())"""
 
+    def __init__(self, R):
+        self.R = R
+        self.types = types_for(R)
+        self.funcs = {c: (name, rx.replace('Lm1E', f'Lm{R}E').replace('IJlEEE', 'IJ' + 'l' * R + 'EEE'), ss) for c, (name, rx, ss) in FUNCS1.items()}
+        self.calls = [(rx, ('nv_make_dims(' + ', '.join('{%d}' % j for j in range(R)) + ')') if rx == r'^make_dims\|' else m) for rx, m in CALLS]
+        self.text = {}
+        self.tag = '' if R == 1 else f'r{R}_'
+        self.defines = [f'NV_RANK={R}']
 
-def build():
-    out = []
-    for c in FUNCS:
-        deps = callees(c)
+    def F(self, c):
+        name, rx, ss = self.funcs[c]
+        return Fn(c, TU, name, flt=FLT, select=msel(rx), kinds=('CXXMethodDecl', 'CXXConstructorDecl', 'CXXDestructorDecl'), self_struct=ss, types=list(self.types),
+                  calls=list(self.calls), members=list(MEMBERS), hooks=[overload_hook], uf_float=False,
+                  dtors=[(r'eigen_vector_t<double>|Eigen::Matrix<double, -1, 1', 'nv_evec_dtor')])
+
+    def callees(self, c):
+        """the extracted functions that `c` calls, transitively (read off the emitted C: only these go into the target)"""
+        todo, out = [c], []
+        while todo:
+            x = todo.pop()
+            if x not in self.text:
+                try:
+                    self.text[x] = self.F(x).emit()
+                except astload.ExtractionError:
+                    self.text[x] = ''
+            for y in self.funcs:
+                if y != c and y not in out and re.search(r'\b' + y + r'\(', self.text[x].split('\n', 2)[-1]):
+                    out.append(y)
+                    todo.append(y)
+        return out
+
+    def plan(self, c):
+        deps = self.callees(c)
         replace = [d for d in deps if d.startswith('ms_copy_')] if (c.startswith('ms_assign') or c == 'ms_move_assign') else []
-        if c in CALLEE and CALLEE[c].startswith('ms_assign'):
+        if c in CALLEE and CALLEE[c].startswith('ms_'):
             # tensor_t forwarders.  Element copies into a mapping: the storage operation by its (proved) contract; operations
             # that allocate: the callee is inlined (an assumed `ensures rw_ok(fresh pointer)` cannot create the block)
-            replace = [CALLEE[c]]
+            replace = [CALLEE[c]] if (CALLEE[c].startswith('ms_assign') or CALLEE[c] == 'ms_move_assign') else []
         if replace:
             deps = [d for d in deps if d in replace or d in HELP]
-        out.append(Target('storage_' + c, [F(c)] + [F(d) for d in deps], H, enforce=c, replace=replace,
-                          harness=HARNESS[c]() if c in HARNESS else None, cbmc_flags=CAD))
-    # owning = view with the view possibly INSIDE the owner's buffer (t = t.slice(b, e), t = std::as_const(t).slice(b, e)):
-    # the storage operator and the tensor_t operator on top of it (callee inlined)
-    for c, src in (('vs_assign_c', CS), ('vs_assign_m', MS)):
-        out.append(Target(f'storage_{c}_alias', [F(c)] + [F(h) for h in callees(c)], H, enforce_none=True, harness=harness_assign_view(c, src), cbmc_flags=CAD))
-    # self-assignment of an owning storage (the strongest aliasing: source == destination)
-    for c in ('vs_copy_assign', 'vs_move_assign'):
-        h = (PRE + '  struct nv_vstore* self = malloc(sizeof(*self));\n  __CPROVER_assume(self != 0);\n'
-             '  self->base.m_dims.d[0] = ns; self->m_data.n = ns; self->m_data.p = nv_alloc(ns);\n'
-             '  if (0 <= nv_g && nv_g < ns) nv_old_g = self->m_data.p[nv_g];\n'
-             f'  nv_thrown = 0;\n  struct nv_vstore* ret = {c}(self, self);\n'
-             '  __CPROVER_assert(ret == self, "self-assignment: returns *this");\n  NV_POST_OWNING(self, ns, "self-assignment");\n' + CANARY)
-        out.append(Target(f'storage_{c}_self', [F(c)] + [F(h_) for h_ in callees(c)], H, enforce_none=True, harness=h, cbmc_flags=CAD))
-    for c, src in (('t_mem_assign_cmap', CS), ('t_mem_assign_map', MS)):
-        out.append(Target(f'storage_{c}_alias', [F(c)] + [F(h) for h in callees(c)], H, enforce_none=True,
-                          harness=harness_assign_view(c, src, what='tensor_mem_t = view'), cbmc_flags=CAD))
+        return deps, replace
+
+    def target(self, name, c, harness=None, enforce_none=False, inline=False):
+        """one target; for ranks >= 2 the function list is a callable (extraction happens in the worker).  `replace` must be known
+        in build(): it is the static plan of rank 1 (the same text at every rank: the storage classes are rank-generic)"""
+        if self.R == 1:
+            deps, replace = (self.callees(c), []) if inline else self.plan(c)
+            fns = [self.F(c)] + [self.F(d) for d in deps]
+        else:
+            replace = [] if inline else RANK1.plan(c)[1]
+
+            def fns(self=self, c=c, inline=inline):
+                deps = self.callees(c) if inline else self.plan(c)[0]
+                return [self.F(c)] + [self.F(d) for d in deps]
+        return Target(name, fns, H, enforce=None if enforce_none else c, enforce_none=enforce_none, replace=replace, harness=harness, cbmc_flags=CAD, defines=self.defines)
+
+    def targets(self, names, extras=True):
+        out = []
+        t = 'storage_' + self.tag
+        for c in names:
+            out.append(self.target(t + c, c, harness=HARNESS[c]() if c in HARNESS else None))
+        if not extras:
+            return out
+        # owning = view with the view possibly INSIDE the owner's buffer (t = t.slice(b, e), t = std::as_const(t).slice(b, e)):
+        # the storage operator and the tensor_t operator on top of it (callee inlined)
+        for c, src in (('vs_assign_c', CS), ('vs_assign_m', MS)):
+            out.append(self.target(f'{t}{c}_alias', c, harness=harness_assign_view(c, src), enforce_none=True, inline=True))
+        # self-assignment of an owning storage (the strongest aliasing: source == destination)
+        for c in ('vs_copy_assign', 'vs_move_assign'):
+            h = (PRE + '  struct nv_vstore* self = malloc(sizeof(*self));\n  __CPROVER_assume(self != 0);\n'
+                 '  self->base.m_dims = ds; self->m_data.n = ns; self->m_data.p = nv_alloc(ns);\n'
+                 '  if (0 <= nv_g && nv_g < ns) nv_old_g = self->m_data.p[nv_g];\n'
+                 f'  nv_thrown = 0;\n  struct nv_vstore* ret = {c}(self, self);\n'
+                 '  __CPROVER_assert(ret == self, "self-assignment: returns *this");\n  NV_POST_OWNING(self, ds, ns, "self-assignment");\n' + CANARY)
+            out.append(self.target(f'{t}{c}_self', c, harness=h, enforce_none=True, inline=True))
+        for c, src in (('t_mem_assign_cmap', CS), ('t_mem_assign_map', MS)):
+            out.append(self.target(f'{t}{c}_alias', c, harness=harness_assign_view(c, src, what='tensor_mem_t = view'), enforce_none=True, inline=True))
+        return out
+
+
+RANK1 = RankSpec(1)
+
+
+def build(tier='quick'):
+    out = RANK1.targets(list(FUNCS1))
+    r2, r3 = RankSpec(2), RankSpec(3)
+    if tier == 'thorough':
+        out += r2.targets(list(FUNCS1)) + r3.targets(list(FUNCS1))
+    else:
+        out += r2.targets(QUICK_HIGHER, extras=False) + [r2.target('storage_r2_vs_assign_c_alias', 'vs_assign_c', harness=harness_assign_view('vs_assign_c', CS), enforce_none=True, inline=True)]
+        out += r3.targets(['vs_assign_c', 'vs_resize_dims', 'ms_copy_m'], extras=False)
     return out
